@@ -895,7 +895,7 @@ func TestVerifC03(t *testing.T) {
 				if class != "before-continue" {
 					fail("request that the access settings do not exclude was not served: " + class)
 				} else if string(cached) != id || (id == "") != (cached == nil) {
-					fail(fmt.Sprintf("admitted request presented ClientID %q but the cache holds %q under its request id", id, cached))
+					fail(fmt.Sprintf("admitted request presented ClientID %q but the cache entry under its request id is %q (entry present: %v)", id, cached, cached != nil))
 				}
 			}
 		}
